@@ -1954,5 +1954,104 @@ seed("c02-close-returns-before-closed", "C02", "R-no-dispatch-after-close", "con
 
 	c.closed = true""", "a failing Logout leaves the connection open and the loop running")
 
+seed("c01-negative-max-arms-limit", "C01", "R-limit-not-early", "data.go",
+"""	if c.server.MaxMessageBytes > 0 {
+		dr.limited = true""", """	if c.server.MaxMessageBytes != 0 {
+		dr.limited = true""", "a negative maximum arms the limit: every message is 552")
+seed("c02-refusal-after-354", "C02", "R-no-cmd-during-data", "conn.go",
+"""	defer c.reset()
+
+	if c.server.LMTP {
+		c.handleDataLMTP()
+		return
+	}
+""", """	defer c.reset()
+
+	if c.binarymime {
+		c.writeResponse(502, EnhancedCode{5, 5, 1}, "late refusal")
+		return
+	}
+
+	if c.server.LMTP {
+		c.handleDataLMTP()
+		return
+	}
+""", "a refusal after 354 leaves the message to the command loop")
+seed("c06-chunk-counted-after-reset", "C06", "R-bdat-accounting", "conn.go",
+"""		c.reset()
+	} else {
+		c.writeResponse(250, EnhancedCode{2, 0, 0}, "Continue")""", """		c.reset()
+		c.bytesReceived += int64(size)
+	} else {
+		c.writeResponse(250, EnhancedCode{2, 0, 0}, "Continue")""", "the last chunk is charged to the next message")
+seed("c20-listeners-closed-before-done", "C20", "R-close-effects", "server.go",
+"""func (s *Server) Close() error {
+	select {
+	case <-s.done:
+		return ErrServerClosed
+	default:
+		close(s.done)
+	}
+
+	var err error
+	s.locker.Lock()
+	for _, l := range s.listeners {
+		if lerr := l.Close(); lerr != nil && err == nil {
+			err = lerr
+		}
+	}
+""", """func (s *Server) Close() error {
+	select {
+	case <-s.done:
+		return ErrServerClosed
+	default:
+	}
+
+	var err error
+	s.locker.Lock()
+	for _, l := range s.listeners {
+		if lerr := l.Close(); lerr != nil && err == nil {
+			err = lerr
+		}
+	}
+	close(s.done)
+""", "Serve finds done open when Accept fails")
+for pid in ("C09", "C19"):
+    seed(pid.lower()+"-readline-skips-empty", pid, "R-line-terminated", "conn.go",
+"""	line, err := c.text.R.ReadString('\\n')
+	if err != nil {
+		if c.lineLimitReader.exceeded() {
+			return "", ErrTooLongLine
+		}
+		return "", err
+	}
+	line = strings.TrimSuffix(line, "\\n")
+	line = strings.TrimSuffix(line, "\\r")
+	return line, nil""", """	for {
+		line, err := c.text.R.ReadString('\\n')
+		if err != nil {
+			if c.lineLimitReader.exceeded() {
+				return "", ErrTooLongLine
+			}
+			return "", err
+		}
+		line = strings.TrimSuffix(line, "\\n")
+		line = strings.TrimSuffix(line, "\\r")
+		if line != "" {
+			return line, nil
+		}
+	}""", "the empty SASL response is swallowed")
+seed("c04-auth-read-error-answered", "C04", "R-auth-read-failure-ends", "conn.go",
+"""		encoded, err = c.readLine()
+		if err != nil {
+			return // TODO: error handling
+		}
+""", """		encoded, err = c.readLine()
+		if err != nil {
+			c.writeResponse(501, EnhancedCode{5, 0, 0}, "Negotiation cancelled")
+			return
+		}
+""", "the handler's 501 and the loop's 421 answer one command")
+
 json.dump(S, open(os.path.join(os.path.dirname(os.path.abspath(__file__)), "bank.json"), "w"), indent=1)
 print(len(S), "seeds")
